@@ -24,6 +24,11 @@ DVals == { <<1>>, Rep(40, 3) }
 DLens == 0..3
 DVersions == {0, 1}
 
+(* the same directed family on LONG nested keys: branch partial keys of 16, 18 and 20 nibbles, i.e. partial-key lengths that  *)
+(* need the header's continuation bytes in the variants whose header keeps fewer length bits (branch with a hashed value;   *)
+(* seed C10f)                                                                                                               *)
+EKeys == { Rep(8, 17), Rep(8, 17) \o <<1>>, Rep(8, 17) \o <<1, 5>> }
+
 MKeys == { <<16>>, <<16, 1>> }
 MVals == { <<1>>, Rep(33, 9) }
 MLens == 0..2
